@@ -83,10 +83,28 @@ NEEDS = {
  "C20-C": "a config containing rows governed by an ignore rule or no rule, no ACL in _diff_and_patch",
  "C20-D": "history: an ACL with two overlapping blocks sharing a same-named child rule; a row matching both, then a row matching one",
 }
-out = subprocess.run([sys.executable, os.path.join(HERE, "tools", "seedcheck.py"), "--all-props"], capture_output=True, text=True).stdout
+if "--from" in sys.argv:
+    out = open(sys.argv[sys.argv.index("--from") + 1]).read()        # output of an earlier seedcheck run
+else:
+    out = subprocess.run([sys.executable, os.path.join(HERE, "tools", "seedcheck.py"), "--all-props"], capture_output=True, text=True).stdout
+
+
+def needs_from_notes(name):
+    """the 'what is needed to manifest' paragraph of the sub-agent's notes (seeds of later rounds have no hand-written entry above)"""
+    p = os.path.join(HERE, "seeded", name, "notes.md")
+    if not os.path.isfile(p):
+        return None
+    txt = open(p, encoding="utf-8").read()
+    m = re.search(r"^#+[^\n]*(needed to manifest|needs to manifest|to manifest|How to trigger|Trigger)[^\n]*\n(.+?)(?=^#|\Z)", txt, re.S | re.M | re.I)
+    if not m:
+        return None
+    return " ".join(m.group(2).split())[:600]
+
+
+
 cur = None; fired = {}
 for l in out.splitlines():
-    m = re.match(r'^(C\d+-[A-F]): ', l)
+    m = re.match(r'^(C\d+-[A-Z]): ', l)
     if m:
         cur = m.group(1); fired[cur] = []; continue
     m = re.match(r'\s+\[(C\d+) rc=1\] (\S+) VIOLATED (\S+) (\S+)', l)
@@ -99,7 +117,7 @@ for name in sorted(os.listdir(os.path.join(HERE, "seeded"))):
     if not os.path.isfile(mp):
         continue
     meta = json.load(open(mp))
-    meta["needs_to_manifest"] = NEEDS.get(name, meta.get("needs_to_manifest"))
+    meta["needs_to_manifest"] = NEEDS.get(name) or (needs_from_notes(name) if meta.get("needs_to_manifest") in (None, "see notes.md") else meta.get("needs_to_manifest")) or "see notes.md"
     meta["caught_by"] = fired.get(name, [])
     meta["caught"] = bool(fired.get(name))
     json.dump(meta, open(mp, "w"), indent=1, ensure_ascii=False)
